@@ -28,6 +28,8 @@ void vf_world_init(const uint8_t *sched, size_t sched_len);
 /* Ends the world: all world threads except 0 must be done (returns number of
  * threads that are still alive; they are abandoned). */
 int vf_world_fini(void);
+/* 1 in the free-running flavour (real parallel threads, for ThreadSanitizer), 0 under the baton scheduler */
+int vf_free_running(void);
 
 /* ---- time --------------------------------------------------------------- */
 uint64_t vf_now_us(void);
